@@ -412,6 +412,7 @@ void reb_collision_search(struct reb_simulation* const r){
         collision_resolve_keep_sorted = 1; // Force keep_sorted for hybrid integrator
     }
 
+    int tree_particles_flagged = 0; // Particles removed while a tree exists are only flagged.
     for (int i=0;i<collisions_N;i++){
         
         struct reb_collision c = r->collisions[i];
@@ -425,6 +426,7 @@ void reb_collision_search(struct reb_simulation* const r){
                 int removedp1 = reb_simulation_remove_particle(r,c.p1,collision_resolve_keep_sorted);
                 if (removedp1){
                     if (r->tree_root){ // In a tree, particles get removed later. 
+                        tree_particles_flagged = 1;
                         for (int j=i+1;j<collisions_N;j++){ // Update other collisions
                             struct reb_collision* cp = &(r->collisions[j]);
                             // Skip collisions which involved the removed particle
@@ -476,6 +478,7 @@ void reb_collision_search(struct reb_simulation* const r){
                 int removedp2 = reb_simulation_remove_particle(r,c.p2,collision_resolve_keep_sorted);
                 if (removedp2){ // Update other collisions
                     if (r->tree_root){ // In a tree, particles get removed later. 
+                        tree_particles_flagged = 1;
                         for (int j=i+1;j<collisions_N;j++){ // Update other collisions
                             struct reb_collision* cp = &(r->collisions[j]);
                             // Skip collisions which involved the removed particle
@@ -513,6 +516,11 @@ void reb_collision_search(struct reb_simulation* const r){
                 }
             }
         }
+    }
+    if (tree_particles_flagged && r->tree_root){
+        // Remove the flagged particles now, so that the particle array is
+        // consistent (no NaN placeholders) at the end of the timestep.
+        reb_simulation_update_tree(r);
     }
 }
 
